@@ -245,6 +245,10 @@ class Path:
         self.loop_end = None
 
 
+_PURE_BUILTINS = {'list', 'zip', 'tuple', 'set', 'sorted', 'enumerate', 'sum', 'str', 'int', 'float', 'max', 'min', 'abs', 'any', 'all', 'dict', 'repr',
+                  'range', 'iter', 'next', 'reversed', 'map', 'filter', 'bool', 'round'}
+
+
 class Interp:
     def __init__(self, libs=None):
         from . import npmodel
@@ -395,6 +399,17 @@ class Interp:
             return v
         raise Unsupported(f"import {name}")
 
+    def eval_class_attr(self, cls, node):
+        """value of a class-level assignment; names of other class-level assignments used in it are resolved in class scope"""
+        env = {}
+        for n in ast.walk(node.value):
+            if isinstance(n, ast.Name):
+                c2, nd = cls.lookup(n.id)
+                if nd is not None and isinstance(nd, ast.Assign) and nd is not node:
+                    env[n.id] = self.eval_class_attr(c2, nd)
+        fr = Frame(self, cls.mod, env, None, f"{cls.mod.name}::{cls.name}.<class>")
+        return fr.eval(node.value)
+
     def eval_in_module(self, expr, mod):
         fr = Frame(self, mod, {}, None, f"{mod.name}::<module>")
         return fr.eval(expr)
@@ -405,6 +420,12 @@ class Interp:
         args = [SV(a) if is_z3(a) else a for a in args]
         kwargs = {k: (SV(v) if is_z3(v) else v) for k, v in kwargs.items()}
         if isinstance(f, Builtin):
+            if f.name in _PURE_BUILTINS:
+                hv = [a for a in list(args) + list(kwargs.values()) if hasattr(a, 'pv_havoc')]
+                if hv:
+                    # pure builtin applied to an arbitrary object: fails or yields an arbitrary object
+                    hv[0].world.may_fail(f'{f.name}(arbitrary object)')
+                    return hv[0]._new(f'{f.name}()')
             return f.fn(*args, **kwargs)
         if isinstance(f, Func):
             return self.call_func(f, args, kwargs)
@@ -775,6 +796,8 @@ class Frame:
                 self.assign(e, x)
         elif isinstance(t, ast.Attribute):
             base = self.eval(t.value)
+            if getattr(self.I, 'generic_loop', 0) and isinstance(base, (Obj, Rec)):
+                raise Unsupported("attribute store inside a loop without invariant")
             if isinstance(base, Obj):
                 base.fields[t.attr] = v
             elif isinstance(base, Rec):
@@ -812,7 +835,50 @@ class Frame:
             if not broke:
                 self.exec_block(s.orelse)
             return
+        if hasattr(it, 'pv_iter'):
+            return self._loop_arbitrary(s, it)
         self._loop(s, kind='for', iterable=it)
+
+    def _loop_arbitrary(self, s, it):
+        """for over an arbitrary (ghost) iterable, without invariant.  Sound for bodies whose effects are confined to local variables, which is enforced:
+        stores to attributes / items of non-local objects and ghost-state mutations inside the body are rejected (Unsupported).  Three continuations:
+        no iteration at all (state unchanged); one arbitrary iteration started from arbitrary values of the loop-assigned locals (explores every crash point of
+        the body, then the path ends: its final state is one of the arbitrary states); exit after >= 1 iterations with arbitrary values of those locals."""
+        from .ghost import Havoc
+        it = it.pv_iter()
+        world = it.world
+        names, attrs, subs = self._assigned_names(s.body)
+        for n in ast.walk(s.target):
+            if isinstance(n, ast.Name):
+                names.add(n.id)
+        if attrs or any(isinstance(x, tuple) for x in subs):
+            raise Unsupported(f"loop over an arbitrary iterable (line {s.lineno}) stores to an object attribute")
+        for n in subs:
+            v = self.env.get(n)
+            if n not in self.env:
+                raise Unsupported(f"loop over an arbitrary iterable (line {s.lineno}) mutates non-local {n}")
+            for k, o in self.env.items():
+                if k != n and o is v and not isinstance(v, (int, float, str, bool, type(None))):
+                    raise Unsupported(f"loop over an arbitrary iterable (line {s.lineno}): {n} is aliased by {k}")
+        if self.I.decide(self.I.fresh('zero_iterations', 'bool')):
+            self.exec_block(s.orelse)
+            return
+        for n in sorted(names | set(subs)):
+            self.env[n] = Havoc(world, n)
+        if self.I.decide(self.I.fresh('in_iteration', 'bool')):
+            world.in_generic_loop += 1
+            self.I.generic_loop = getattr(self.I, 'generic_loop', 0) + 1
+            try:
+                self.assign(s.target, Havoc(world, 'item'))
+                try:
+                    self.exec_block(s.body)
+                except (_Break, _Continue):
+                    pass
+            finally:
+                world.in_generic_loop -= 1
+                self.I.generic_loop -= 1
+            raise PathEnd()
+        self.exec_block(s.orelse)
 
     def _assigned_names(self, body):
         names, attrs, subs = set(), set(), set()
@@ -990,6 +1056,8 @@ class Frame:
             return v
         if v is None:
             return False
+        if hasattr(v, 'pv_truth'):
+            return v.pv_truth()
         if isinstance(v, (int, float)):
             return v != 0
         if isinstance(v, str):
